@@ -358,6 +358,17 @@ pub mod fs {
             old(w).healthy && old(w).fs.dirs.contains(p.pathv()) ==> r is Ok,
     { unimplemented!() }
 
+    /// rmdir(2): removes an EMPTY directory (fails otherwise) - wherever it is
+    #[verifier::external_body]
+    pub fn remove_dir<A: PathArg>(p: A, Tracked(w): Tracked<&mut World>) -> (r: io::Result<()>)
+        ensures
+            old(w).healthy == final(w).healthy, world_wf(*old(w)) ==> world_wf(*final(w)), hist_ext(*old(w), *final(w)),
+            r is Err ==> final(w).fs == old(w).fs && final(w).hist == old(w).hist,
+            r is Ok ==> old(w).fs.dirs.contains(p.pathv())
+                && final(w).fs == (Fs { dirs: old(w).fs.dirs.remove(p.pathv()), ..old(w).fs })
+                && final(w).hist == old(w).hist.push(final(w).fs),
+    { unimplemented!() }
+
     /// unlink(2)
     #[verifier::external_body]
     pub fn remove_file<A: PathArg>(p: A, Tracked(w): Tracked<&mut World>) -> (r: io::Result<()>)
